@@ -607,6 +607,9 @@ const WAITS: [Wait; 30] = [
 // long waits that only unit/overflow errors make return early; one attempt, "not early" only
 const LONG: [Wait; 4] = [Wait::Usleep(4_400_000), Wait::Nanosleep(4, 400_000_000), Wait::Poll(4400), Wait::Select(4, 400_000)];
 
+// waits issued right after a receive with its own timeout was completed by data
+const AFTER_IO: [Wait; 5] = [Wait::Usleep(150_000), Wait::Nanosleep(0, 150_000_000), Wait::Poll(150), Wait::Select(0, 150_000), Wait::Sleep(1)];
+
 // maximal values: must neither return within 400 ms nor abort
 const HUGE: [Wait; 6] = [Wait::Sleep(u32::MAX), Wait::Usleep(u32::MAX), Wait::Nanosleep(i64::MAX / 4, 999_999_999), Wait::Poll(i32::MAX), Wait::Poll(-1), Wait::Select(i64::MAX / 4, 999_999)];
 
@@ -696,8 +699,52 @@ pub fn cmd_timed(args: &Args, out: &Out) {
                     }
                 }
             }
+        } else if k < WAITS.len() + LONG.len() + 6 + AFTER_IO.len() {
+            // the wait follows a receive that had a 40 ms timeout of its own and was completed by data after ~3 ms:
+            // whatever the runtime still remembers of that receive must not cut the wait short
+            let w = AFTER_IO[k - WAITS.len() - LONG.len() - 6];
+            let req = requested_ns(&w);
+            out.begin(case, jobj! {"call" => wait_str(&w), "context" => ctx, "requested_ns" => req,
+                "preceded_by" => "recv on a socket with SO_RCVTIMEO = 40 ms, completed by data arriving after ~3 ms"});
+            let name = wait_str(&w).split('(').next().unwrap_or("").to_lowercase();
+            let fp = format!("after-io|{}|{ctx}", wait_str(&w));
+            let res = in_ctx(coroutine, Duration::from_nanos(req) + Duration::from_secs(30), move || {
+                let (a, b) = socketpair();
+                let tv = libc::timeval { tv_sec: 0, tv_usec: 40_000 };
+                let so = oc::setsockopt(None, a, libc::SOL_SOCKET, libc::SO_RCVTIMEO, (&raw const tv).cast(), std::mem::size_of::<libc::timeval>() as libc::socklen_t);
+                let feeder = std::thread::spawn(move || {
+                    std::thread::sleep(Duration::from_millis(3));
+                    unsafe { libc::write(b, b"x".as_ptr().cast(), 1) }
+                });
+                let mut buf = [0u8; 4];
+                let got = oc::recv(None, a, buf.as_mut_ptr().cast(), 4, 0);
+                let r = do_wait(w);
+                let _ = feeder.join();
+                let _ = oc::close(None, a);
+                unsafe { libc::close(b) };
+                (so, got, r)
+            });
+            match res {
+                None => {
+                    out.end(case, Verdict::Violated, &format!("C14/{name}/returns-far-too-late"), true, &fp, J::Null, &format!("{} after a completed recv did not return within requested + 30 s", wait_str(&w)));
+                    std::process::exit(3);
+                }
+                Some((so, got, (r, e, el))) => {
+                    let obs = jobj! {"setsockopt" => i64::from(so), "recv_returned" => got as i64, "wait_returned" => r, "elapsed_ns" => el, "requested_ns" => req};
+                    let tol = (req / 10).min(1_000_000) + 20_000;
+                    if so != 0 || got != 1 {
+                        out.end(case, Verdict::Inconclusive, "harness/preceding-recv-did-not-complete-by-data", false, &fp, obs, "");
+                    } else if r != 0 {
+                        out.end(case, Verdict::Violated, &format!("C14/{name}/unexpected-return-value"), true, &fp, obs, &format!("{} returned {r} errno {e}", wait_str(&w)));
+                    } else if el + tol < req {
+                        out.end(case, Verdict::Violated, &format!("C14/{name}/returns-early/after-completed-recv"), true, &fp, obs, &format!("{} returned after {el} ns, {} ns early; the receive before it had a 40 ms timeout and was completed by data", wait_str(&w), req - el));
+                    } else {
+                        out.end(case, Verdict::Held, "", true, &fp, obs, "");
+                    }
+                }
+            }
         } else {
-            let hk = k - WAITS.len() - LONG.len() - 6;
+            let hk = k - WAITS.len() - LONG.len() - 6 - AFTER_IO.len();
             if hk >= HUGE.len() {
                 break;
             }
@@ -717,7 +764,7 @@ pub fn cmd_timed(args: &Args, out: &Out) {
 }
 
 #[allow(dead_code)]
-pub const TIMED_CASES: u64 = 2 * (30 + 4 + 6 + 6);
+pub const TIMED_CASES: u64 = 2 * (30 + 4 + 6 + 5 + 6);
 
 // ====================================================================== C28
 pub fn cmd_helpers(args: &Args, out: &Out) {
